@@ -53,7 +53,8 @@ def run(tier, seed):
 
     def shard(k):
         trace = os.path.join(wd, f"trace{k}.ndjson")
-        harness(["input", "--out", trace, "--seed", seed * 1000 + k, "--histories", 20 if quick else 200, "--len", 50])
+        harness(["input", "--out", trace, "--seed", seed * 1000 + k, "--histories", 20 if quick else 200, "--len", 50,
+                 "--pairs", 1 if k == 0 else 0])
         return (trace,) + validate(trace, f"t{k}", cfg)
 
     res = parallel([mc] + [lambda k=k: shard(k) for k in range(shards)])
@@ -90,7 +91,9 @@ def run(tier, seed):
     chk.cov["traces_validated_against_impl"] = runs
     chk.cov["rule"] = (f"{shards} shards x {20 if quick else 200} histories of 50 events over all 40 keys, 7 compound keys, 2x5 Sinclair controls, 8 Kempston bits, "
                        "4 mouse buttons, wheel, motion deltas incl. +-127/-128; after every event the CPU reads the 8 half-rows, 6 random selectors "
-                       "(all 256 every 10th event) and the joystick or mouse ports; 48K and 128K; mouse on/off")
+                       "(all 256 every 10th event) and the joystick or mouse ports; 48K and 128K; mouse on/off; plus, once, every ordered pair of the 29 "
+                       "interacting controls (7 compound keys, 2x5 Sinclair controls, CAPS SHIFT, SPACE, digits) x both release orders, all eight "
+                       "half-rows read after the second press and after each release")
     chk.assumptions += ["only bits 0-4 (and the constant bits 5,7) of ULA reads are judged here; EAR is C07/C11",
                         "with the mouse enabled every odd A5=0 port also selects the mouse, so the Kempston joystick is judged in mouse-less configurations",
                         "initial mouse counters are learnt from the first reads"]
